@@ -14,7 +14,75 @@ MAX_INLINE_DEPTH = 60
 import os as _os
 import sys
 DEBUG_DUMP = _os.environ.get("PYVC_DUMP")
+DEBUG_CHOOSE = _os.environ.get("PYVC_CHOOSE")
 FRESH_RECHECK = bool(_os.environ.get("PYVC_FRESH"))    # thorough tier: every obligation also by a fresh solver
+
+
+OLD_Z3 = '/usr/bin/z3'
+FRESH_CTX = not _os.environ.get('PYVC_NO_FRESH_CTX')
+CONCRETISE = not _os.environ.get('PYVC_NO_CONCRETISE')
+FEAS_REDUCED = not _os.environ.get('PYVC_NO_FEAS_REDUCED')
+_REC_CACHE = {}
+_REC_KEEP = []      # keeps the formulas alive so that ids are not reused
+
+
+def fresh_ctx_check(sol, timeout_ms):
+    """Decide the solver's assertions in a NEW z3 context, from their SMT-LIB text.  The working context holds
+    every recursive spec function of the plan, and z3's recursive-function plugin gets slower with each of them
+    even when a query does not mention them (measured: 14-20 s in the working context, 0.01 s in a new one for
+    the same text).  The text contains only what the query mentions.  Returns 'unsat' | 'sat' | 'unknown'."""
+    if not FRESH_CTX:
+        return 'unknown'
+    try:
+        txt = sol.to_smt2()
+        key = (hash(txt), len(txt), int(timeout_ms))
+        if key in _FRESH_CACHE:
+            return _FRESH_CACHE[key]
+        out = _fresh_ctx_check(txt, timeout_ms)
+        if len(_FRESH_CACHE) > 20000:
+            _FRESH_CACHE.clear()
+        _FRESH_CACHE[key] = out
+        return out
+    except Exception:
+        return 'unknown'
+
+
+_FRESH_CACHE = {}     # same query text (paths are re-executed from the start, so prefixes repeat) -> same answer
+
+
+def _fresh_ctx_check(txt, timeout_ms):
+    try:
+        ctx = z3.Context()
+        s2 = z3.Solver(ctx=ctx)
+        s2.set('timeout', int(timeout_ms))
+        s2.from_string(txt)
+        r = s2.check()
+        out = 'unsat' if r == z3.unsat else 'sat' if r == z3.sat else 'unknown'
+        del s2
+        del ctx
+        return out
+    except Exception:
+        return 'unknown'
+
+
+def second_backend_unsat(sol, secs):
+    """True iff /usr/bin/z3 answers `unsat` on the SMT-LIB text of the solver's assertions within `secs`."""
+    import subprocess
+    import tempfile
+    if not _os.path.exists(OLD_Z3) or _os.environ.get('PYVC_NO_SECOND_BACKEND'):
+        return False
+    try:
+        with tempfile.NamedTemporaryFile('w', suffix='.smt2', delete=False) as fh:
+            fh.write(sol.to_smt2())
+            path = fh.name
+        try:
+            out = subprocess.run([OLD_Z3, '-T:%d' % secs, path], capture_output=True, text=True,
+                                 timeout=secs + 5).stdout
+        finally:
+            _os.unlink(path)
+        return out.strip().splitlines()[:1] == ['unsat']
+    except Exception:
+        return False
 
 
 class Env:
@@ -114,6 +182,7 @@ class Run:
         self.pending = []
         self.timeout_ms = timeout_ms
         self.feas_timeout_ms = feas_timeout_ms
+        self.seq_known = {}
         self.pc = []
         self.obligations = []
         self.fresh_n = 0
@@ -167,13 +236,51 @@ class Run:
         s.add(extra)
         return s
 
+    def mentions_rec(self, f):
+        """f applies a recursive spec function (cached by formula id)"""
+        key = f.get_id()
+        r = _REC_CACHE.get(key)
+        if r is None:
+            r = False
+            seen = set()
+            todo = [f]
+            while todo:
+                x = todo.pop()
+                if x.get_id() in seen:
+                    continue
+                seen.add(x.get_id())
+                if z3.is_quantifier(x):
+                    todo.append(x.body())
+                    continue
+                if z3.is_app(x):
+                    if x.decl().kind() == z3.Z3_OP_RECURSIVE:
+                        r = True
+                        break
+                    todo.extend(x.children())
+            _REC_CACHE[key] = r
+            _REC_KEEP.append(f)
+        return r
+
     def feasible(self, cond):
         t0 = time.time()
-        s = self._solver(cond, self.feas_timeout_ms)
+        if FEAS_REDUCED and self.mentions_rec_any():
+            # path pruning from the hypotheses that do not mention recursive spec functions only: satisfiability
+            # WITH them needs a model of the recursive functions, which z3 rarely finds within the budget (answer
+            # `unknown` after the full budget, i.e. "feasible" anyway).  Fewer hypotheses = more paths, never fewer.
+            s = z3.Solver()
+            s.set('timeout', self.feas_timeout_ms)
+            s.add([f for f in self.pc if not self.mentions_rec(f)])
+            s.add(cond)
+        else:
+            s = self._solver(cond, self.feas_timeout_ms)
         if DEBUG_DUMP:
             with open(DEBUG_DUMP, 'w') as fh:
                 fh.write(s.to_smt2())
-        r = s.check()
+        if FRESH_CTX:
+            fr = fresh_ctx_check(s, self.feas_timeout_ms)
+            r = z3.unsat if fr == 'unsat' else z3.sat if fr == 'sat' else z3.unknown
+        else:
+            r = s.check()
         self.solver_secs += time.time() - t0
         if DEBUG_DUMP and time.time() - t0 > 1.0:
             sys.stderr.write('SLOW feasibility %.1fs %s: %s\n' % (time.time() - t0, r, str(cond)[:300]))
@@ -182,6 +289,9 @@ class Run:
             # recursive spec function is needed); further pruning queries on this path are pointless
             self.feas_gave_up += 1
         return r != z3.unsat
+
+    def mentions_rec_any(self):
+        return any(self.mentions_rec(f) for f in self.pc)
 
     def choose(self, cond):
         if isinstance(cond, bool):
@@ -220,7 +330,11 @@ class Run:
             else:
                 raise PathEnd('infeasible')
         self.trace.append(d)
+        if DEBUG_CHOOSE:
+            sys.stderr.write('CHOOSE %s %s: %s\n' % (''.join('T' if x else 'F' for x in self.trace), d, str(cond)[:200].replace('\n', ' ')))
         self.assume(cond if d else z3.Not(cond))
+        if CONCRETISE:
+            self.note_length(cond, d)
         return d
 
     def prove(self, claim, label, kind):
@@ -231,11 +345,15 @@ class Run:
         t0 = time.time()
         sol = self._solver(z3.Not(claim), min(self.timeout_ms, 4000))
         if DEBUG_DUMP:
-            with open(DEBUG_DUMP + '.prove', 'w') as fh:
+            with open(DEBUG_DUMP + '.prove.' + label.replace(':', '_').replace('/', '_')[-60:], 'w') as fh:
                 fh.write(sol.to_smt2())
-        r = sol.check()
         model = None
         detail = ''
+        if fresh_ctx_check(sol, min(self.timeout_ms, 4000)) == 'unsat':
+            r = z3.unsat
+            detail = 'fresh-context'
+        else:
+            r = sol.check()
         if r == z3.sat:
             try:
                 model = sol.model()
@@ -250,6 +368,12 @@ class Run:
             if DEBUG_DUMP:
                 with open(DEBUG_DUMP + '.unknown', 'w') as fh:
                     fh.write(sol.to_smt2())
+            # second back end: the SMT-LIB text of the same query given to /usr/bin/z3 (4.8.12), whose sequence
+            # solver decides many small seq + recursive-function queries at once on which 5.1 gives up.
+            # Only `unsat` is taken from it (sound: the query is the same text); anything else falls through.
+            if second_backend_unsat(sol, max(4, self.timeout_ms // 2000)):
+                status = 'proved'
+                detail = 'backend:z3-4.8.12'
             # z3's search is unstable on some small queries (dropping any one redundant hypothesis makes
             # them immediate).  Proving the claim from FEWER hypotheses is sound, so retry with the
             # hypotheses in reverse order and with one hypothesis left out at a time (short budget each).
@@ -257,7 +381,7 @@ class Run:
             variants = [list(reversed(self.pc))]
             for k in list(range(n - 1, max(n - 9, -1), -1)) + list(range(0, min(4, n))):
                 variants.append(self.pc[:k] + self.pc[k + 1:])
-            for hyps in variants:
+            for hyps in (variants if status == 'unknown' else []):
                 s2 = z3.Solver()
                 s2.set('timeout', max(2000, self.timeout_ms // 8))
                 s2.add(hyps)
@@ -617,7 +741,43 @@ class Run:
             return list(v.items)
         if isinstance(v, RangeV) and all(isinstance(x, int) for x in (v.lo, v.hi, v.step)):
             return list(range(v.lo, v.hi, v.step))
+        if isinstance(v, ZV) and isinstance(v.kind, tuple) and v.kind[0] == 'seq' and self.seq_known:
+            its = self.seq_known.get(v.e.sexpr())
+            if its is not None:
+                return list(its)
         return None
+
+    def note_length(self, cond, d):
+        """A decision `len(xs) == n` (n <= 6, xs an uninterpreted sequence constant) was taken on this path:
+        from here on xs is the concrete tuple (x0, ..., xn-1) of fresh constants (xs == [x0, ..., xn-1] is assumed,
+        which is what the decision says), so loops over it unroll and calls with *xs see n arguments."""
+        c = cond
+        if z3.is_not(c):
+            c, d = c.arg(0), not d
+        if not d or not z3.is_eq(c):
+            return
+        a, b = c.arg(0), c.arg(1)
+        if z3.is_int_value(a):
+            a, b = b, a
+        if not (z3.is_int_value(b) and z3.is_app(a) and a.decl().kind() == z3.Z3_OP_SEQ_LENGTH):
+            return
+        xs, n = a.arg(0), b.as_long()
+        if not (0 <= n <= 6 and z3.is_const(xs) and xs.decl().kind() == z3.Z3_OP_UNINTERPRETED):
+            return
+        key = xs.sexpr()
+        if key in self.seq_known:
+            return
+        kind = None
+        for v in self.inputs.values():
+            if isinstance(v, ZV) and isinstance(v.kind, tuple) and v.kind[0] == 'seq' and v.e.sexpr() == key:
+                kind = v.kind
+        if kind is None:
+            return
+        items = [self.fresh(kind[1], '%s_%d' % (str(xs).split('!')[0], i)) for i in range(n)]
+        zs = [z3.Unit(self.z(x, kind[1])) for x in items]
+        lit = z3.Empty(xs.sort()) if n == 0 else zs[0] if n == 1 else z3.Concat(*zs)
+        self.assume(xs == lit)
+        self.seq_known[key] = items
 
     # ------------------------------------------------------------ name resolution
     def lookup_name(self, name, env):
@@ -1214,6 +1374,10 @@ class Run:
         c = self.w.contracts.get(q)
         if c is not None and not c.inline and not self.spec_mode:
             if c.inline_if_none is not None and self.arg_is_none(fv, c.inline_if_none, args, kwargs):
+                return self.inline_call(fv, args, kwargs)
+            if getattr(c, 'inline_if_concrete', False) and not kwargs and \
+                    not any(isinstance(a, StarArg) for a in args) and self.target != q:
+                # a *args function called with a concrete number of arguments: its loops unroll, no contract needed
                 return self.inline_call(fv, args, kwargs)
             return self.apply_contract(c, fv, args, kwargs)
         return self.inline_call(fv, args, kwargs)
